@@ -34,6 +34,7 @@ from bitcoinlib.services.services import Service
 from bitcoinlib.transactions import Input, Output, Transaction, get_unlocking_script_type, TransactionError
 from bitcoinlib.scripts import Script
 from sqlalchemy import func, or_
+from sqlalchemy.orm.attributes import set_committed_value
 
 _logger = logging.getLogger(__name__)
 
@@ -3084,6 +3085,13 @@ class Wallet(object):
                 })
 
         if not key_id:
+            # Accounts in the scope of this update without any unspent output left have a balance of zero
+            for b in self._balances:
+                if (account_id is None or b['account_id'] == account_id) and \
+                        (network is None or b['network'] == network) and \
+                        not [bl for bl in balance_list
+                             if bl['network'] == b['network'] and bl['account_id'] == b['account_id']]:
+                    b['balance'] = 0
             for bl in balance_list:
                 bl_item = [b for b in self._balances if
                            b['network'] == bl['network'] and b['account_id'] == bl['account_id']]
@@ -3100,6 +3108,11 @@ class Wallet(object):
             if kb['id'] in self._key_objects:
                 self._key_objects[kb['id']]._balance = kb['balance']
         self.session.bulk_update_mappings(DbKey, key_balance_list)
+        # The bulk update bypasses key objects already loaded in this session: bring their balance up to date
+        new_balances = {kb['id']: kb['balance'] for kb in key_balance_list}
+        for obj in list(self.session.identity_map.values()):
+            if isinstance(obj, DbKey) and obj.id in new_balances:
+                set_committed_value(obj, 'balance', new_balances[obj.id])
         self._commit()
         _logger.info("Got balance for %d key(s)" % len(key_balance_list))
         return self._balances
